@@ -1,4 +1,5 @@
 //! Engines shared by all property checks.
+pub mod alloc;
 pub mod choice;
 pub mod crumb;
 pub mod known;
@@ -60,7 +61,10 @@ pub fn guarded<T>(f: impl FnOnce() -> T) -> Result<T, String> {
     }
 }
 
+pub static WANT_BACKTRACE: std::sync::atomic::AtomicBool = std::sync::atomic::AtomicBool::new(false);
+
 thread_local! {
+    pub static LAST_PANIC_BT: std::cell::RefCell<Option<String>> = const { std::cell::RefCell::new(None) };
     pub static LAST_PANIC_LOC: std::cell::RefCell<Option<String>> = const { std::cell::RefCell::new(None) };
     pub static QUIET_PANICS: std::cell::Cell<bool> = const { std::cell::Cell::new(false) };
 }
@@ -74,6 +78,9 @@ pub fn install_panic_hook() {
             .map(|l| format!("{}:{}", l.file(), l.line()))
             .unwrap_or_default();
         LAST_PANIC_LOC.with(|l| *l.borrow_mut() = Some(loc));
+        if WANT_BACKTRACE.load(std::sync::atomic::Ordering::Relaxed) {
+            LAST_PANIC_BT.with(|l| *l.borrow_mut() = Some(alloc::raw_backtrace()));
+        }
         if !QUIET_PANICS.with(|q| q.get()) {
             default(info);
         }
@@ -83,6 +90,17 @@ pub fn install_panic_hook() {
 /// Normalise a panic location "path:line" inside /repo to "relpath::trimmed source text" so that
 /// keys survive line shifts.
 pub fn normalise_site(loc: &str) -> String {
+    static MEMO: std::sync::OnceLock<std::sync::Mutex<std::collections::HashMap<String, String>>> = std::sync::OnceLock::new();
+    let memo = MEMO.get_or_init(Default::default);
+    if let Some(v) = memo.lock().unwrap().get(loc) {
+        return v.clone();
+    }
+    let v = normalise_site_uncached(loc);
+    memo.lock().unwrap().insert(loc.to_string(), v.clone());
+    v
+}
+
+fn normalise_site_uncached(loc: &str) -> String {
     let (file, line) = match loc.rsplit_once(':') {
         Some((f, l)) => (f, l.parse::<usize>().unwrap_or(0)),
         None => return loc.to_string(),
